@@ -138,7 +138,7 @@ def run_shard(acc, prop, tier, seed, shard, nshards, **kw):
         canary_fn(acc, srv)
     finally:
         srv.close()
-    _w.shard(acc, PROP, tier, seed, shard, nshards, factory, WEIGHTS, (8, (120, 200)), (300, (120, 300)), CORR)
+    _w.shard(acc, PROP, tier, seed, shard, nshards, factory, WEIGHTS, (8, (120, 200)), (220, (120, 300)), CORR)
 
 
 def floors(acc, tier):
